@@ -11,7 +11,7 @@ use hifitime::{Epoch, TimeScale, Weekday};
 pub fn meta() -> Meta {
     Meta {
         rule: "events = (a) weekday(), weekday_utc(), weekday_in_time_scale(TAI|UTC) of one epoch; (b) next/previous(weekday) for all 7 weekdays (+ _at_midnight/_at_noon variants); (c) exhaustive Weekday arithmetic: From<u8> (256), From<i8> (256), 7x256 weekday +/- u8 and += / -=, 49 weekday + weekday sums and weekday - weekday differences. Expected: weekday of the TAI / UTC civil date of the instant (M-SCALE + M-CAL, 1900-01-01 = Monday), arithmetic in Z/7, next/previous exactly 1..7 whole days later/earlier with the requested weekday. ET/TDB epochs within 100 ns of a TAI day boundary, TAI instants without UTC pre-image, and weekday equality after next/previous for UTC epochs within 8 days of a leap second are don't-care. Generation: enumerated days at first ns, last ns, last microsecond and a random time, scales rotated (all nine 1850-2150), random instants, dates before 1900. Non-trivial = every epoch event (distinct (reading, scale) hashes) and every arithmetic combination.",
-        assumptions: &["weekday_in_time_scale for scales whose reference day is not a Monday is documented as not civil and is not judged"],
+        assumptions: &["weekday_in_time_scale for scales whose reference day is not a Monday is documented as not civil: both the documented day count and the civil weekday of the date in that scale are accepted"],
         mandatory: &["wd/last-ns-of-day", "wd/first-ns-of-day", "wd/before-1900", "wd/utc-differs-from-tai", "arith/exhaustive", "next/same-weekday", "next/before-reference"],
         thorough_scale: 8,
         exhaustive_part: "Weekday arithmetic: 256 u8 + 256 i8 conversions, 7x256 +/- u8 (4 forms), 49 pairs x {+,-}; thorough: every day of years 1..9999",
@@ -158,6 +158,29 @@ pub fn check_epoch(rep: &mut Rep, w: &World, c: i128, s: TimeScale, nextprev: bo
                     let dev = w.from_tai_f12b(t, TimeScale::UTC);
                     let fid = if s != TimeScale::UTC && w.in_f12b_window(t) && idx(b) == cal::weekday_1900(dev.div_euclid(NS_D) as i64) && idx(b2) == idx(b) { Some("F12b-tai-to-utc-frame") } else { None };
                     rep.fail("weekday/utc", fid, || format!("{}.weekday_utc() = {:?} / {:?}, UTC civil date says {:?} (UTC time of day {} ns)", det(), b, b2, wd(wu), utod));
+                }
+            }
+        }
+    }
+    // weekday_in_time_scale for the other requested scales: documented as "whole days since that scale's reference, the
+    // reference taken for a Monday"; the civil weekday of the date in that scale is accepted too. Either way the answer
+    // depends on the instant and the requested scale only, not on the scale the epoch happens to be held in.
+    if !is_dyn(s) && rep.tick() {
+        rep.class("wd/in-other-scale");
+        for req in [TimeScale::TT, TimeScale::GPST, TimeScale::QZSST, TimeScale::GST, TimeScale::BDT] {
+            let rd = match w.from_tai(t, req) {
+                Some(x) => x,
+                None => continue,
+            };
+            let documented = rd.div_euclid(NS_D).rem_euclid(7) as u8;
+            let civil = cal::weekday_1900((rd + greg_zero_ns(req)).div_euclid(NS_D) as i64);
+            match guard(|| e.weekday_in_time_scale(req)) {
+                Err(p) => rep.fail(&format!("weekday/panic/{}", p.class()), None, || format!("{}.weekday_in_time_scale({:?}) panicked: {}", det(), req, p.msg)),
+                Ok(g) => {
+                    if idx(g) != documented && idx(g) != civil {
+                        let fid = if s == TimeScale::UTC || !w.in_f12b_window(t) { None } else { None };
+                        rep.fail("weekday/in-time-scale", fid, || format!("{}.weekday_in_time_scale({:?}) = {:?}; reading {} in that scale: day count says {:?}, civil date says {:?}", det(), req, g, rd, wd(documented), wd(civil)));
+                    }
                 }
             }
         }
